@@ -19,8 +19,9 @@ def main(ids):
     shutil.copy(SO, wt + "/src/spectrum/")
     env = dict(os.environ, PYTHONPATH=wt + "/src", MPLBACKEND="Agg")
     try:
-        for pid in ids:
-            base = "/tmp/wt/%s/_out" % pid
+        for wid in ids:
+            pid = wid[-3:]                      # worktree R2C07 holds a second-round change for property C07
+            base = "/tmp/wt/%s/_out" % wid
             if not os.path.isdir(base):
                 print(pid, "no _out"); continue
             for m in sorted(os.listdir(base)):
